@@ -682,9 +682,88 @@ def rule_r7(ctx, cg) -> RuleResult:
     return rr
 
 
+# recursion on the expansion path that does not pass through expand_recurse's depth guard (R6):
+# allowed only where it descends a finite structure of the input
+STRUCTURAL_RECURSION = {
+    "core.Wtp.expand.expand_recurse.expand_args": "descends the nesting of cookies; a cookie's arguments only hold older cookies",
+    "luaexec.mw_text_jsondecode.recurse": "descends the decoded JSON value",
+    "luaexec.mw_text_jsonencode.recurse": "descends the Lua value being encoded",
+    "node_expand.to_wikitext.recurse": "descends the parse tree",
+    "parser.": "the parser's handlers recurse on the nesting of the input text (C01 covers their totality)",
+    "parserfns.expr_fn.parse_": "recursive-descent #expr parser: consumes at least one token per level",
+}
+# structural recursions that cost many interpreter frames per nesting level of the *input*: their entry
+# call must sit under a handler for RecursionError (group prefix -> (function holding the entry call, why))
+RECURSION_NEEDS_HANDLER = {
+    "parserfns.expr_fn.parse_": ("parserfns.expr_fn", "one frame per precedence level (12) for every parenthesis: 50 nested parentheses exhaust "
+                                                      "the interpreter's 1000-frame limit"),
+}
+
+
+def rule_r8(ctx, cg: CallGraph) -> RuleResult:
+    """Every cycle of the call graph on the expansion path either passes through expand_recurse,
+    whose depth and loop guards (R6) bound it, or is one of the enumerated structural recursions.
+    Any other recursion (e.g. a page-lookup helper that follows redirects by calling itself) is
+    driven by stored data, pushes nothing on the expansion path and ends in RecursionError."""
+    rr = RuleResult("C05.R8", "recursion on the expansion path is guarded by the depth limit or structural", min_instances=15)
+    closure = cg.closure(["core.Wtp.expand"])
+    cut = {"core.Wtp.expand.expand_recurse"}
+
+    def reach_without_cut(a):
+        seen, st = set(), [a]
+        while st:
+            x = st.pop()
+            for c in cg.edges.get(x, ()):
+                if c in cut or c in seen:
+                    continue
+                seen.add(c)
+                st.append(c)
+        return seen
+
+    for f in sorted(closure):
+        if f in cut or not ctx.index.has_func(f):
+            continue
+        if f not in reach_without_cut(f):
+            continue
+        reason = next((why for pre, why in STRUCTURAL_RECURSION.items() if f == pre or (pre.endswith((".", "_")) and f.startswith(pre))), None)
+        if reason:
+            rr.ok(f, "structural recursion: " + reason, {"fn": f})
+        else:
+            fn = ctx.index.func(f)
+            rr.bad(Finding("C05.R8", ctx.index.mod(f.split(".")[0]).relpath, f, "recursive call cycle through " + f.split(".")[-1],
+                           "this function is on a call cycle that does not pass through expand_recurse's depth/loop guards and is not a "
+                           "structural recursion: stored data (e.g. a redirect cycle) drives it into RecursionError, which expand() does not catch",
+                           fn.lineno))
+    covers = {"RecursionError", "RuntimeError", "Exception", "BaseException"}
+    for pre, (holder, why) in RECURSION_NEEDS_HANDLER.items():
+        hf = ctx.fn(holder)
+        parents = ctx.index.mod(holder.split(".")[0]).parents
+        entries = [c for c in walk_no_nested(hf) if isinstance(c, ast.Call) and isinstance(c.func, ast.Name)
+                   and (holder + "." + c.func.id).startswith(pre)]
+        if not entries:
+            raise AnalysisError("{}: entry call into the recursive group {}* not found".format(holder, pre))
+        for c in entries:
+            n, protected = c, False
+            while n in parents and n is not hf:
+                p_ = parents[n]
+                if isinstance(p_, ast.Try) and n in p_.body:
+                    for h in p_.handlers:
+                        names = [unparse(x) for x in (h.type.elts if isinstance(h.type, ast.Tuple) else [h.type])] if h.type is not None else ["BaseException"]
+                        if set(names) & covers:
+                            protected = True
+                n = p_
+            if protected:
+                rr.ok(holder, unparse(c) + " under a RecursionError handler", {"entry": unparse(c), "group": pre})
+            else:
+                rr.bad(Finding("C05.R8", ctx.index.mod(holder.split(".")[0]).relpath, holder, unparse(c),
+                               "the entry into this recursive group is not under a handler for RecursionError ({}): the exception leaves "
+                               "expand() instead of an in-band error".format(why), c.lineno))
+    return rr
+
+
 def run(ctx) -> list:
     cg = CallGraph(ctx.index)
     sf = SqlFacts(ctx.index)
     scope = _scope(ctx, cg)
     return [rule_r1(ctx, cg), rule_r2(ctx, cg, scope), rule_r3(ctx), rule_r4(ctx, cg, scope), rule_r5(ctx, cg, sf),
-            rule_r6(ctx), rule_r7(ctx, cg)]
+            rule_r6(ctx), rule_r7(ctx, cg), rule_r8(ctx, cg)]
